@@ -13,6 +13,8 @@ against tests/scanner/*-expected.gir by vt/scan/c02_calib.py):
      function, a callback typedef (thorough: method, function-pointer field), as struct
      field, fixed-size array field, bit-field, and constant (cast) position (quick: pointer
      depth 2 and the function-pointer-field host only for a representative subset of bases);
+ (P) array-declarator parameters `T x[]` / `T x[4]` (adjusted to `T *` by C11 6.7.6.3) in functions, methods,
+     callback typedefs and function-pointer fields;
  (D) default ownership after a bare direction annotation ((out), (inout), (out caller-/
      callee-allocates), (in)) - the only way to reach the documented out/inout defaults;
  (A) every sequence (with repetition, hence every arrangement; plus the same slots spelled through local
@@ -85,7 +87,7 @@ def case_needs(case):
     k = case['kind']
     names = set()
     full = False
-    if k in ('type', 'dir'):
+    if k in ('type', 'dir', 'aparam'):
         base = case['sp']['base']
         if base in M.LOCAL:
             names.add(base)
@@ -190,6 +192,25 @@ def dir_cases(tier):
     return out
 
 
+APARAM_QUICK = [('int', False, ()), ('guint8', False, ()), ('char', False, (False,)), ('char', True, (False,)),
+                ('FooRec', False, ()), ('FooRec', False, (False,))]
+APARAM_MORE = [('gchar', False, (False,)), ('gchar', True, (False,)), ('int', True, ()), ('double', False, ()),
+               ('gpointer', False, ()), ('FooEn', False, ()), ('FooCb', False, ()), ('GObject', False, (False,)),
+               ('unsigned char', False, ()), ('int', False, (False,))]
+
+
+def aparam_cases(tier):
+    """Array-declarator parameters `T x[]` / `T x[4]`: C11 6.7.6.3p7 adjusts the parameter's type
+    to `T *`, which therefore is the spelling the c:type has to keep."""
+    out = []
+    elems = APARAM_QUICK + (APARAM_MORE if tier == 'thorough' else [])
+    for base, bq, ptr in elems:
+        for size in (None, 4):
+            for h in ('func', 'cb', 'method', 'vfunc'):
+                out.append({'kind': 'aparam', 'sp': Sp(base, bq, ptr).to_json(), 'size': size, 'host': h})
+    return out
+
+
 def arr_cases(tier):
     maxlen = 5 if tier == 'thorough' else 4
     hosts = ['func', 'cb', 'method', 'vfunc'] if tier == 'thorough' else ['func', 'cb', 'method']
@@ -279,6 +300,19 @@ def build(case):
             decls.append(Func('foo_rec_hostm', 'void', [('FooRec *', 'self'), (c, 'arg')]))
             blk = 'foo_rec_hostm'
         comments.append(srun.comment(srun.block(blk, params=[('arg', '(%s)' % case['ann'])])))
+    elif k == 'aparam':
+        kids = [] if case['size'] is None else [fake.CS(fake.CSYMBOL_TYPE_CONST, None, None, const_int=case['size'])]
+        at = fake.CT(fake.CTYPE_ARRAY, base_type=fake.T(Sp.from_json(case['sp']).c()), child_list=kids)
+        h = case['host']
+        if h == 'func':
+            decls.append(Func('foo_hostfn', 'void', [(at, 'arg')]))
+        elif h == 'cb':
+            decls.append(Callback('FooHostCb', 'void', [(at, 'arg')]))
+        elif h == 'method':
+            decls.append(Func('foo_rec_hostm', 'void', [('FooRec *', 'self'), (at, 'arg')]))
+        else:
+            decls.append(Typedef('FooBox', 'struct _FooBox'))
+            decls.append(Struct('_FooBox', [Field('first', 'int'), FieldCb('vf', 'void', [(at, 'arg')])]))
     elif k == 'arr':
         params, roles, names = arr_params(case)
         h = case['host']
@@ -597,6 +631,9 @@ def case_key(case):
     k = case['kind']
     if k == 'type':
         return 'type:%s@%s' % (Sp.from_json(case['sp']).c(), case['pos'])
+    if k == 'aparam':
+        return 'aparam:%s arg[%s]@%s' % (Sp.from_json(case['sp']).c(), '' if case['size'] is None else case['size'],
+                                        case['host'])
     if k == 'dir':
         return 'dir:%s (%s)@%s' % (Sp.from_json(case['sp']).c(), case['ann'], case['host'])
     return 'arr:%s/%s/%s@%s%s' % (case['seq'] or '-', case['cb'], case['uname'], case['host'],
@@ -639,7 +676,12 @@ def execute(case):
         j.fails.append(('host element', 'present', None))
         return j, ('nohost',), res.xml, None, decls
     k = case['kind']
-    if k == 'type':
+    if k == 'aparam':
+        sp = Sp.from_json(case['sp'])
+        adjusted = Sp(sp.base, sp.bq, sp.ptr + (False,))        # T x[] / T x[N]  ==  T *x
+        pos = {'func': 'param', 'cb': 'cbparam', 'method': 'mparam', 'vfunc': 'vparam'}[case['host']]
+        out = ('aparam',) + tuple(judge_type({'kind': 'type', 'sp': adjusted.to_json(), 'pos': pos}, host, j) or ())
+    elif k == 'type':
         out = judge_type(case, host, j)
     elif k == 'dir':
         out = judge_dir(case, host, j)
@@ -675,7 +717,7 @@ def _work(chunk):
 def run(ctx):
     from vt.scan import c02_calib
     calib = c02_calib.calibrate()
-    cases = type_cases(ctx.tier) + dir_cases(ctx.tier) + arr_cases(ctx.tier)
+    cases = type_cases(ctx.tier) + dir_cases(ctx.tier) + aparam_cases(ctx.tier) + arr_cases(ctx.tier)
     nsp = len(spellings(ctx.tier))
     ctx.set(rule='every (type spelling x position), every (pointer spelling x bare direction annotation x host) and every '
                  'role sequence x user-data name x callback type x host is scanned by the real pipeline and each emitted '
@@ -684,7 +726,7 @@ def run(ctx):
                  'non-trivial = case with at least one MUST/MUST-NOT observable',
             bounds={'tier': ctx.tier, 'base_spellings': len(all_bases()), 'spellings': nsp,
                     'pointer_depth': 2, 'pointer_depth3_bases': DEPTH3, 'depth2_bases': 'all' if ctx.tier == 'thorough' else DEPTH2_QUICK,
-                    'type_cases': len(type_cases(ctx.tier)), 'dir_cases': len(dir_cases(ctx.tier)),
+                    'type_cases': len(type_cases(ctx.tier)), 'dir_cases': len(dir_cases(ctx.tier)), 'array_declarator_param_cases': len(aparam_cases(ctx.tier)),
                     'arrangement_max_params': 5 if ctx.tier == 'thorough' else 4,
                     'arrangement_cases': len(arr_cases(ctx.tier)), 'user_data_names': UNAMES,
                     'callback_types': ['FooCb (local typedef)', 'GAsyncReadyCallback']},
